@@ -157,7 +157,9 @@ def run(tier, seed, only=None):
         run_obligations(rep, "WingboxFuelVolDelta[%s]" % cn, obs, timeout, family=lambda ob: "WingboxFuelVolDelta: " + ob.meta["family"],
                         replay=replay_factory(sc, ins, lambda ob, real, vals, env: float(np.ravel(real["fuel_vol_delta"])[0])))
         # ---------------- point masses and thrust
-        for npm in ([1] if tier == "quick" else [1, 2]):
+        # (two point masses only on the smallest beam: each such group costs minutes of solver time and adds the
+        #  accumulation over several masses, which does not depend on the beam size)
+        for npm in ([1, 2] if (tier == "thorough" and ny == 2) else [1]):
             sp = dict(s, n_point_masses=npm)
             for (cls, mod, amp, out, direction, nm) in (
                     ("ComputePointMassLoads", "structures.compute_point_mass_loads", "point_masses", "loads_from_point_masses", 2, "point-mass"),
@@ -218,7 +220,7 @@ def run(tier, seed, only=None):
     groups.wiring_check(rep, lambda: SpatialBeamSetup(surface=st), "SpatialBeamSetup(tube)", fam, timeout)
     groups.wiring_check(rep, lambda: SpatialBeamSetup(surface=sw), "SpatialBeamSetup(wingbox)", fam, timeout)
     groups.wiring_check(rep, lambda: AerostructGeometry(surface=st), "AerostructGeometry(tube)", fam, timeout)
-    rep.bounds = {"ny": [c[1] for c in cfgs(tier)], "point_masses": "1 (quick), 1-2 (thorough)"}
+    rep.bounds = {"ny": [c[1] for c in cfgs(tier)], "point_masses": "1 (quick), 1-2 (thorough, two only on the ny = 2 beam)"}
     rep.assumptions = ["real arithmetic", "g = 9.80665", "moment reference point p symbolic"]
     return rep.finish("C16: mass / cg / load-sum / moment-sum identities against first-principles sums on symbolic nodes, areas, masses")
 
